@@ -26,6 +26,8 @@ thread_local! {
                     io_ret.store(Box::new(r));
                 }
                 // wake up the master thread
+                #[cfg(may_verif)]
+                crate::verif::thread_unpark(&parker);
                 parker.unpark();
             }
         })};
